@@ -203,4 +203,14 @@ example : clientPathGen [0x61, 0x2e, 0x62] [0x47] [0x4d] = [0x2f, 0x61, 0x2e, 0x
     clientPathGen [] [0x47] [0x4d] = [0x2f, 0x47, 0x2f, 0x4d] ∧ serviceNameGen [] [0x47] = [0x47] := by decide
 example : parsePattern (rpcRoutePatternGen [0x47]) = some (.catchAll [0x2f, 0x47, 0x2f]) := by decide
 
+
+/-- **The typed-call plumbing the model describes is the one in the source** (shapes recognised on this
+run): an error status becomes a response carrying its code, ALL its headers and (if any) its message
+under `status-message`, and is rebuilt from exactly those on the client; the client encodes, calls, turns
+every non-success status into that error, and decodes a success body with the method's codec (a body the
+codec rejects is an error, never a success); the server decodes (a rejected body is answered with an
+error status without calling the handler), calls the handler once, and encodes its answer; the JSON
+codec is `serde_json::from_slice` (rejects trailing input), the bincode codec `bincode::deserialize`. -/
+theorem C17_rpc_plumbing_is_translated : Gen.rpcShapeChecked = true := rfl
+
 end Anemo
